@@ -42,7 +42,7 @@
 (* scalar header on the `---` line, bare documents after `...`, directives,  *)
 (* anchors containing `:`, merge keys (`<<`), duplicate keys, the empty      *)
 (* stream, a blank line right after a keep-chomped block scalar.             *)
-EXTENDS Integers, Sequences, FiniteSets, YamlCoreSchema
+EXTENDS Integers, Sequences, FiniteSets, TLC, YamlCoreSchema
 
 CONSTANTS
   PalUse,        \* palette indices in use
@@ -54,7 +54,10 @@ CONSTANTS
                  \* variant, document flag, non-minimal indent, non-LF break): each costs 1
   Indents,       \* indent widths
   Breaks,        \* subset of {"LF","CRLF","CR"}
-  DocFlags       \* doc-level flags allowed to be 1: subset of {"ds","de","zi","cmp","fsp"}
+  DocFlags,      \* doc-level flags allowed to be 1: subset of {"ds","de","zi","cmp","fsp"}
+  Sim            \* TRUE under -simulate: every choice inside an action is drawn at random
+                 \* (one successor per action kind), so random walks are cheap and the tree
+                 \* shape is not dominated by the many scalar alternatives
 
 AllPlain == {"pb", "pr", "pk", "pf", "pfk"}
 All == AllPlain \cup {"sq", "lit", "fold"}
@@ -227,6 +230,7 @@ Push(n, open) ==
 
 Budget == MaxDecor - dec
 B(S) == IF Budget > 0 THEN S ELSE {0}
+Pick(S) == IF Sim /\ S # {} THEN {RandomElement(S)} ELSE S
 
 AddScalar ==
   /\ CanAdd
@@ -236,15 +240,16 @@ AddScalar ==
          keys == IF role = "key" THEN KeyTexts(Top) ELSE {}
          cms == B(Cms(FALSE))
          pres == B(Pres)
-     IN \E t \in PalUse \ keys :
-        \E st \in {x \in ScalarStyles : Admissible(ctx, t, x)} :
-        \E an \in B({0, 1}), vr \in (IF st \in {"double", "fold"} THEN B({0, 1}) ELSE {0}), cm \in cms, pre \in pres :
+     IN \E t \in Pick(PalUse \ keys) :
+        \E st \in Pick({x \in ScalarStyles : Admissible(ctx, t, x)}) :
+        \E an \in Pick(B({0, 1})), vr \in Pick(IF st \in {"double", "fold"} THEN B({0, 1}) ELSE {0}),
+           cm \in Pick(cms), pre \in Pick(pres) :
           /\ Cost(an, cm, pre, vr) <= Budget
           \* documented loader limitation (limitations.md, KeyWithoutValue `b #c: d`): a root
           \* plain scalar followed by a comment that contains `: ` is not generated
           /\ (role = "root" /\ st = "plain" => cm # 2)
           /\ dec' = dec + Cost(an, cm, pre, vr)
-          /\ \E ch \in (IF st \in {"lit", "fold"} THEN ChompT[t] ELSE {""}) :
+          /\ \E ch \in Pick(IF st \in {"lit", "fold"} THEN ChompT[t] ELSE {""}) :
                Push(Node("str", par, role, t, st, ch, vr, an, 0, cm, pre), FALSE)
 
 \* an alias names an anchored, COMPLETED (hence not enclosing) earlier node of the same document
@@ -252,8 +257,8 @@ AddAlias ==
   /\ CanAdd
   /\ Budget > 0
   /\ Role \in {"item", "val"}
-  /\ \E tg \in {x \in 1..Len(nodes) : nodes[x].an = 1 /\ \A k \in 1..Len(stack) : stack[k] # x} :
-     \E cm \in Cms(FALSE), pre \in Pres :
+  /\ \E tg \in Pick({x \in 1..Len(nodes) : nodes[x].an = 1 /\ \A k \in 1..Len(stack) : stack[k] # x}) :
+     \E cm \in Pick(Cms(FALSE)), pre \in Pick(Pres) :
        /\ 1 + Cost(0, cm, pre, 0) <= Budget
        /\ dec' = dec + 1 + Cost(0, cm, pre, 0)
        /\ Push(Node("alias", Par, Role, 0, "alias", "", 0, 0, tg, cm, pre), FALSE)
@@ -261,9 +266,9 @@ AddAlias ==
 Open ==
   /\ CanAdd
   /\ Role # "key"
-  /\ \E k \in {"map", "seq"}, st \in (IF InFlow THEN CollStyles \cap {"flow"} ELSE CollStyles), an \in B({0, 1}),
-        pre \in B(Pres) :
-       \E cm \in B(Cms(st = "block")) :
+  /\ \E k \in Pick({"map", "seq"}), st \in Pick(IF InFlow THEN CollStyles \cap {"flow"} ELSE CollStyles),
+        an \in Pick(B({0, 1})), pre \in Pick(B(Pres)) :
+       \E cm \in Pick(B(Cms(st = "block"))) :
             /\ Cost(an, cm, pre, 0) <= Budget
             /\ dec' = dec + Cost(an, cm, pre, 0)
             /\ Push(Node(k, Par, Role, 0, st, "", 0, an, 0, cm, pre), TRUE)
@@ -283,8 +288,8 @@ MinIndent == CHOOSE w \in Indents : \A v \in Indents : w <= v
 \* a non-minimal indent width and a non-LF break kind cost 1
 EndDoc ==
   /\ phase = "build" /\ stack = <<>> /\ nodes # <<>>
-  /\ \E ds \in (IF docs # <<>> THEN {1} ELSE Flag("ds")), de \in Flag("de"), w \in Indents, zi \in Flag("zi"),
-        cmp \in Flag("cmp"), fsp \in Flag("fsp") :
+  /\ \E ds \in Pick(IF docs # <<>> THEN {1} ELSE Flag("ds")), de \in Pick(Flag("de")), w \in Pick(Indents),
+        zi \in Pick(Flag("zi")), cmp \in Pick(Flag("cmp")), fsp \in Pick(Flag("fsp")) :
        LET cost == (IF docs # <<>> THEN 0 ELSE ds) + de + zi + cmp + fsp + (IF w = MinIndent THEN 0 ELSE 1)
        IN /\ cost <= Budget
           /\ dec' = dec + cost
@@ -296,7 +301,7 @@ EndDoc ==
 Finish ==
   /\ phase = "build" /\ nodes = <<>> /\ docs # <<>>
   /\ phase' = "done"
-  /\ br' \in (IF Budget > 0 THEN Breaks ELSE Breaks \cap {"LF"})
+  /\ br' \in Pick(IF Budget > 0 THEN Breaks ELSE Breaks \cap {"LF"})
   /\ UNCHANGED <<docs, nodes, stack, dec>>
 
 MoreDocs == Len(docs) < MaxDocs
